@@ -216,7 +216,7 @@ func c02Wire(t *rm.Type, w []byte) *ev.Violation {
 }
 
 func runC02(r *ev.Run, thorough bool) {
-	r.Rule = "encode direction: per type, values within <=k deviations incl. non-canonical text (cut/pad), library bytes == pinned-schema interpreter bytes; decode direction: reference wires of V1 plus every 1-byte substitution from {00,01,20,30,7F,80,FF}, library decode == interpreter decode (accept/reject, value, consumed); distinct = distinct (type,value) or (type,wire); non-trivial = differs from the all-zero base"
+	r.Rule = "encode direction: per type, values within <=k deviations incl. non-canonical text (cut/pad), library bytes == pinned-schema interpreter bytes; decode direction: reference wires of V1 plus every 1-byte substitution, 1-byte insertion (from {00,01,20,30,7F,80,FF}) and 1-byte deletion, library decode == interpreter decode (accept/reject, value, consumed); distinct = distinct (type,value) or (type,wire); non-trivial = differs from the all-zero base"
 	r.Assume("schema/pinned/*.json is the specification (reverse-engineered from the pinned commit, byte order per protocol)", "hostile count/length prefixes are delegated to C09/C10")
 	parTypes(r, bind.Types, func(t *rm.Type, l *ev.Local) {
 		k := 1
@@ -238,7 +238,7 @@ func runC02(r *ev.Run, thorough bool) {
 		})
 		// decode direction
 		n := 0
-		wireSpace(t, wireOpts{DevBaseOnly: !thorough, Dev: 1}, func(w []byte, desc string) bool {
+		wireSpace(t, wireOpts{DevBaseOnly: !thorough, Dev: 1, Indel: true}, func(w []byte, desc string) bool {
 			n++
 			key := ev.H(t.QName() + string(w))
 			l.Eval(key, true)
